@@ -106,6 +106,21 @@ def addKeyRequest (refuseWeb : Bool) (cfg : Cfg) (w : World) (s : String) (ka : 
     | .panic p => (w, "panic:" ++ p)
     | .ok _ => stepOp cfg w (.addKey s) order f
 
+/-! ### `transactionHelper`: the clean-up transaction itself fails -/
+
+/-- One operation whose SECOND transaction (delete the change records, or — after a failed Commit — delete the versions)
+    fails with a database error: `transactionHelper` returns that error ("give priority to the DB error (critical)"), the
+    transaction is rolled back, so versions AND change records stay as the first transaction wrote them; what the Commit
+    calls published stays published. `nutsFails`: the did:nuts Commit had failed as well. Without changes (`next == nil`
+    for every DID) the clean-up executes no statement and cannot fail. -/
+def stepOpCleanupFails (cfg : Cfg) (w : World) (o : Op) (order : List Method) (nutsFails : Bool) : World × String :=
+  match tx1 cfg w o with
+  | .err e => (w, "err:" ++ e)
+  | .panic s => (w, "panic:" ++ s)
+  | .ok (w1, chs) =>
+    if chs.isEmpty then stepOp cfg w o order .none
+    else ({ w1 with pub := (commitLoop (if nutsFails then .failNuts else .none) chs order 0 w1.pub).1 }, "err:db")
+
 /-! ### `sortDIDsByMethod`: the order of `ListDIDs` / `List` / the documents `Create` returns -/
 
 /-- a `did.DID` as the comparator sees it -/
